@@ -413,7 +413,9 @@ class StreamHarness(Harness):
         else:
             nid2, pos2, par2, hold2 = nid, pos, pc[3], pc[1:]
         flags = 0
-        if offering and rdy and (self.coop_ctrl is None or cc in self.coop_ctrl):
+        # the consumer co-operates when it accepts what it is shown: ready high, or (consumers that raise ready only after they have
+        # seen valid, e.g. `ready = valid`) nothing shown to it - an element may not wait for ready before it raises valid
+        if offering and (rdy or not ov) and (self.coop_ctrl is None or cc in self.coop_ctrl):
             flags |= COOP
         if in_hs or out_hs:
             flags |= PROGRESS
@@ -560,7 +562,8 @@ class MultiStreamHarness(Harness):
         if err is not None:
             return env, err, 0
         prods2 = []
-        coop = all(rdys) and (self.coop_ctrl is None or cc in self.coop_ctrl)
+        # a consumer co-operates when it is ready or is shown nothing (see StreamHarness)
+        coop = all(r or not o[0] for r, o in zip(rdys, outs)) and (self.coop_ctrl is None or cc in self.coop_ctrl)
         flags = 0
         for i, ((nid, pos, hold), pc) in enumerate(zip(prods, pcs)):
             if pc[0] == "idle":
